@@ -22,7 +22,7 @@ RULE += '; data tables named like a model of the catalog, three-part table names
 ASSUMPTIONS = ['marker names are unique, so an identifier part tb_NN / mdl_N identifies its table / model wherever it appears',
                'first name part matched case-insensitively against integrations and projects, otherwise the default namespace']
 BUDGET = {'quick': (8, 240), 'thorough': (16, 1800)}
-INTS = ['int1', 'int2', 'int3']
+INTS = ['int1', 'int2', 'int3', 'außen4']      # (the last: a name on which lower() and casefold() disagree)
 
 
 def floors(tier):
@@ -35,6 +35,9 @@ def ceilings(tier):
 
 
 def spell(name, style):
+    if not name.isascii():
+        # upper() is not a spelling of the same name here (ß -> SS); written between back-quotes, as given or capitalised
+        return '`' + (name if style != 'cap' else name.capitalize()) + '`'
     return name if style == 'lower' else name.upper() if style == 'upper' else name.capitalize()
 
 
@@ -188,6 +191,8 @@ def model_metadata(case, variant=0):
         for rec in out:
             if rec['integration_name'] == 'mindsdb':
                 del rec['integration_name']
+            # keys of its own that a catalog record may carry (the version named in the STATEMENT decides, not these)
+            rec.update({'version': '9', 'id': 17, 'active': True, 'engine': 'e', 'NAME': 'other'})
         out = ([{'name': 'zz_before', 'integration_name': 'proj', 'timeseries': False, 'to_predict': ['y']}] + out +
                [{'name': 'zz_after', 'integration_name': 'proj', 'timeseries': True, 'window': 2, 'order_by_column': 'ts', 'group_by_columns': []},
                 {'name': 'zz_last', 'timeseries': False, 'to_predict': ['y']}])
@@ -205,7 +210,7 @@ def catalog(form, case, default_ns):
             integrations.append({'name': 'proj', 'type': 'project'})
     if form == 6:
         # names and dicts mixed, names not in lower case
-        integrations = ['INT1', {'name': 'Int2', 'type': 'data'}, 'int3', {'name': 'Proj', 'type': 'project'}]
+        integrations = ['INT1', {'name': 'Int2', 'type': 'data'}, 'int3', {'name': 'Proj', 'type': 'project'}, {'name': 'Außen4', 'type': 'data'}]
     if form == 9:
         integrations = [{'name': n, 'type': 'data'} for n in ints] + [{'name': 'proj', 'type': 'project'}, {'name': 'mindsdb', 'type': 'project'}]
     if getattr(case, 'uses_project', False):
